@@ -68,9 +68,10 @@ def main(tier):
             jobs.append(dict(par=dict(stack=st, seed=seed() + 81 + si, level=lv, entropy="low" if (si + len(st)) % 2 else "high"),
                              sid=sid, **s))
             sid += 1
-    for li, s in enumerate(long_scenarios(1 + seed() % 5)[:2 if tier == "quick" else 6]):
+    for li, s in enumerate(long_scenarios(1 + seed() % 5)[:1 if tier == "quick" else 6]):
         for st in ("raw", "enc", "comp", "comp+enc"):
-            jobs.append(dict(par=dict(stack=st, seed=seed() + 95 + li, level=[0, 5, 11][li % 3]), sid=9500 + len(jobs), cut_stride=2, **s))
+            jobs.append(dict(par=dict(stack=st, seed=seed() + 95 + li, level=[0, 5, 11][li % 3]), sid=9500 + len(jobs),
+                             cut_stride=5 if tier == "quick" else 2, **s))
     # a COUNT of files (not a size): thousands of small files added one after another, repaired intact and cut
     import json as _j
     nmany = 5000 if tier == "quick" else 70000
